@@ -403,9 +403,59 @@ def gen_cases(ctx):
 
 
 # ---- attributes ------------------------------------------------------------------------------------------------
-# token = (class, k): ("n", k) Name t<k> | ("m", k) Nmtoken <k>t | ("b", k) t#<k> (not an Nmtoken)
+# token = (class, k): ("n", k) Name t<k> | ("m", k) Nmtoken <k>t | ("b", k) t<k># (not an Nmtoken).
+# _PAD underscores are inserted so that values reach chosen lengths; what tells two tokens apart comes LAST.
+_PAD = [0]
+
+
 def tok_text(t):
-    return {"n": "t%d", "m": "%dt", "b": "t#%d"}[t[0]] % t[1]
+    u = "_" * _PAD[0]
+    return {"n": "t" + u + "%d", "m": "%d" + u + "t", "b": "t" + u + "%d#"}[t[0]] % t[1]
+
+
+# the DTD's declarations other than ELEMENT/ATTLIST.  Either two lists (unparsed, parsed general entity names) or
+# opts = {"decls": ordered [(kind, k)] with kind u|g|p|n|e, "pad": n, "collide": bool, "crefs": bool}
+def other_decl_lines(unparsed, parsed):
+    if not isinstance(unparsed, dict):
+        return (['<!ENTITY %s SYSTEM "u%d" NDATA nt>' % (tok_text(("n", k)), k) for k in unparsed] +
+                ['<!ENTITY %s "p%d">' % (tok_text(("n", k)), k) for k in parsed])
+    out = []
+    for i, (kind, k) in enumerate(unparsed["decls"]):
+        nm = tok_text(("n", k))
+        out.append({"u": '<!ENTITY %s SYSTEM "u%d-%d" NDATA nt>' % (nm, k, i), "g": '<!ENTITY %s "g%d-%d">' % (nm, k, i),
+                    "p": "<!ENTITY %% %s '<!-- pe %d -->'>" % (nm, i), "n": '<!NOTATION %s SYSTEM "n%d">' % (nm, k),
+                    "e": "<!ELEMENT %s EMPTY>" % nm}[kind])
+    if unparsed.get("collide"):      # names of one kind reused by the other kinds (no effect expected)
+        out += ['<!ENTITY e "ge">', "<!ENTITY % e 'pe'>", '<!NOTATION e SYSTEM "e">', "<!ELEMENT a1 EMPTY>",
+                '<!ENTITY a1 "ga1">', '<!NOTATION r SYSTEM "r">', "<!ENTITY % r 'per'>", "<!ELEMENT nt EMPTY>",
+                '<!ENTITY nt "gnt">']
+    return out
+
+
+def env_fields(unparsed, parsed):
+    if not isinstance(unparsed, dict):
+        return "%s %s" % (csv(unparsed), csv(parsed))
+    return "D:%s -" % ",".join("%s%d" % d for d in unparsed["decls"])
+
+
+def parsed_names(unparsed, parsed):
+    """names that are parsed general entities (first general declaration wins) -- only used to place references to
+    them in element content, where they must expand without any error"""
+    if not isinstance(unparsed, dict):
+        return list(parsed)
+    first = {}
+    for kind, k in unparsed["decls"]:
+        if kind in "ug" and k not in first:
+            first[k] = kind
+    return [k for k, kind in first.items() if kind == "g"] if unparsed.get("crefs") else []
+
+
+def with_pad(unparsed, fn):
+    _PAD[0] = unparsed.get("pad", 0) if isinstance(unparsed, dict) else 0
+    try:
+        return fn()
+    finally:
+        _PAD[0] = 0
 
 
 def val_text(v):
@@ -440,16 +490,21 @@ def def_text(d):
 
 
 def attr_doc_text(unparsed, parsed, defs, doc):
+    return with_pad(unparsed, lambda: attr_doc_text0(unparsed, parsed, defs, doc))
+
+
+def attr_doc_text0(unparsed, parsed, defs, doc):
     out = ['<?xml version="1.0"?>', "<!DOCTYPE r [", "<!ELEMENT r (e)*>", "<!ELEMENT e (#PCDATA)>",
            '<!NOTATION nt SYSTEM "nt">']
     nots = sorted({t[1] for d in defs if d[1] == "O" for t in d[2] if t[0] == "n"})
-    out += ['<!NOTATION t%d SYSTEM "x%d">' % (k, k) for k in nots]
-    out += ['<!ENTITY t%d SYSTEM "u%d" NDATA nt>' % (k, k) for k in unparsed]
-    out += ['<!ENTITY t%d "p%d">' % (k, k) for k in parsed]
+    out += ['<!NOTATION %s SYSTEM "x%d">' % (tok_text(("n", k)), k) for k in nots]
+    out += other_decl_lines(unparsed, parsed)
     if defs:
         out.append("<!ATTLIST e " + "\n  ".join(def_text(d) for d in defs) + ">")
     out.append("]>")
-    body = "".join("<e%s></e>" % "".join(' a%d="%s"' % (n, val_text(v)) for n, v in el) for el in doc)
+    refs = "".join("&%s;" % tok_text(("n", k)) for k in parsed_names(unparsed, parsed)[:2]) \
+        if isinstance(unparsed, dict) else ""
+    body = "".join("<e%s>%s</e>" % ("".join(' a%d="%s"' % (n, val_text(v)) for n, v in el), refs) for el in doc)
     out.append("<r>" + body + "</r>")
     return "\n".join(out) + "\n"
 
@@ -457,8 +512,10 @@ def attr_doc_text(unparsed, parsed, defs, doc):
 def attr_req(sw, unparsed, parsed, defs, doc):
     dr = ";".join(def_req(d) for d in defs) if defs else "-"
     er = "/".join(",".join("%d=%s" % (n, val_req(v)) for n, v in el) if el else "-" for el in doc)
-    return "attr %d %s %s %s %s %s" % (sw, csv(unparsed), csv(parsed), dr, er,
-                                       attr_doc_text(unparsed, parsed, defs, doc).encode().hex().upper())
+    pad = unparsed.get("pad", 0) if isinstance(unparsed, dict) else 0
+    return "attr %d %s %s %s %s%s" % (sw, env_fields(unparsed, parsed), dr, er,
+                                      attr_doc_text(unparsed, parsed, defs, doc).encode().hex().upper(),
+                                      " %d" % pad if pad else "")
 
 
 def f25_class(defs, doc):
@@ -633,18 +690,24 @@ def scanner_thresholds():
 
 
 def tattr_doc_text(unparsed, parsed, tdefs, doc):
+    return with_pad(unparsed, lambda: tattr_doc_text0(unparsed, parsed, tdefs, doc))
+
+
+def tattr_doc_text0(unparsed, parsed, tdefs, doc):
     out = ['<?xml version="1.0"?>', "<!DOCTYPE r [", "<!ELEMENT r (%s)*>" % "|".join("e%d" % ty for ty, _ in tdefs)]
     out += ["<!ELEMENT e%d (#PCDATA)>" % ty for ty, _ in tdefs]
     out.append('<!NOTATION nt SYSTEM "nt">')
     nots = sorted({t[1] for _, defs in tdefs for d in defs if d[1] == "O" for t in d[2] if t[0] == "n"})
-    out += ['<!NOTATION t%d SYSTEM "x%d">' % (k, k) for k in nots]
-    out += ['<!ENTITY t%d SYSTEM "u%d" NDATA nt>' % (k, k) for k in unparsed]
-    out += ['<!ENTITY t%d "p%d">' % (k, k) for k in parsed]
+    out += ['<!NOTATION %s SYSTEM "x%d">' % (tok_text(("n", k)), k) for k in nots]
+    out += other_decl_lines(unparsed, parsed)
     for ty, defs in tdefs:
         if defs:
             out.append("<!ATTLIST e%d " % ty + "\n  ".join(def_text(d) for d in defs) + ">")
     out.append("]>")
-    body = "".join("<e%d%s></e%d>" % (ty, "".join(' a%d="%s"' % (n, val_text(v)) for n, v in el), ty) for ty, el in doc)
+    refs = "".join("&%s;" % tok_text(("n", k)) for k in parsed_names(unparsed, parsed)[:2]) \
+        if isinstance(unparsed, dict) else ""
+    body = "".join("<e%d%s>%s</e%d>" % (ty, "".join(' a%d="%s"' % (n, val_text(v)) for n, v in el), refs, ty)
+                   for ty, el in doc)
     out.append("<r>" + body + "</r>")
     return "\n".join(out) + "\n"
 
@@ -652,8 +715,10 @@ def tattr_doc_text(unparsed, parsed, tdefs, doc):
 def tattr_req(sw, unparsed, parsed, tdefs, doc):
     dr = "|".join("%d@%s" % (ty, ";".join(def_req(d) for d in defs) if defs else "-") for ty, defs in tdefs)
     er = "/".join("%d@%s" % (ty, ",".join("%d=%s" % (n, val_req(v)) for n, v in el) if el else "-") for ty, el in doc)
-    return "tattr %d %s %s %s %s %s" % (sw, csv(unparsed), csv(parsed), dr, er,
-                                        tattr_doc_text(unparsed, parsed, tdefs, doc).encode().hex().upper())
+    pad = unparsed.get("pad", 0) if isinstance(unparsed, dict) else 0
+    return "tattr %d %s %s %s %s%s" % (sw, env_fields(unparsed, parsed), dr, er,
+                                       tattr_doc_text(unparsed, parsed, tdefs, doc).encode().hex().upper(),
+                                       " %d" % pad if pad else "")
 
 
 def gen_tattr_cases(ctx):
@@ -813,7 +878,165 @@ def gen_tattr_cases(ctx):
         cases.append(("attr-many-on-tag", unparsed, parsed, [(0, dn)], [(0, [(i + 1, [("n", 1)]) for i in range(n)])] * 2))
         cases.append(("attr-many-on-tag-undeclared", unparsed, parsed, [(0, dn[:n - 1])],
                       [(0, [(i + 1, [("n", 1)]) for i in range(n)])]))
+    # -- E. the same documents with the general entities declared among same-named declarations of the other kinds
+    noisy = []
+    for c in cases:
+        if rng.random() < 0.4 and not c[0].startswith("attr-many"):
+            noisy.append((c[0] + "+ns",) + (noisy_env(rng, c[1], c[2]), None) + c[3:])
+    return cases + noisy + gen_namespace_cases(ctx) + gen_length_cases(ctx)
+
+
+# ---- the name spaces of the DTD and length thresholds of attribute values ---------------------------------------
+def noisy_env(rng, unparsed, parsed):
+    """the same general entities, declared among parameter entities / notations / element types of the same names,
+    with later re-declarations inside each kind (the first one is binding)"""
+    gens = [("u", k) for k in unparsed] + [("g", k) for k in parsed]
+    rng.shuffle(gens)
+    names = list(unparsed) + list(parsed)
+    decls = []
+    for g in gens:
+        for kind in "pne":
+            if rng.random() < 0.35:
+                decls.append((kind, g[1]))           # same name, other kind, BEFORE the general entity
+        decls.append(g)
+    for k in names:
+        for kind in "pne":
+            if rng.random() < 0.3 and (kind, k) not in decls:
+                decls.append((kind, k))              # ... or after it
+        if rng.random() < 0.4:
+            decls.append((rng.choice("ug"), k))      # a later general declaration of the same name is ignored
+        if rng.random() < 0.3 and ("p", k) in decls:
+            decls.append(("p", k))
+    if rng.random() < 0.5:
+        decls.append(("p", 97))                      # a parameter entity only: t97 is NOT a general entity
+    return {"decls": decls, "collide": rng.random() < 0.5, "crefs": rng.random() < 0.6}
+
+
+def attr_buffer_sizes():
+    """fixed-size XMLCh buffers of the DTD validator (the value copy in validateAttrValue)"""
+    import re
+    src = open(os.path.join(V.REPO, "src", "xercesc", "validators", "DTD", "DTDValidator.cpp")).read()
+    sizes = sorted({int(x) for x in re.findall(r"XMLCh\s+\w+\[(\d+)\]", src) if int(x) > 16})
+    if not sizes:
+        raise RuntimeError("no fixed-size XMLCh buffer found in DTDValidator.cpp any more")
+    return sizes
+
+
+def gen_length_cases(ctx):
+    """values whose length sits on the validator's buffer sizes, the deciding character LAST"""
+    rng = ctx.rng
+    lens = set()
+    for b in attr_buffer_sizes():
+        lens |= {b - 2, b - 1, b, b + 1, b + 2, 2 * b, 2 * b + 1}
+    lens |= {255, 256, 1023, 1024, 1025} if ctx.tier == "thorough" else {256, 1024}
+    cases = []
+    n = lambda k: ("n", k)
+    for L in sorted(lens):
+        p1 = L - 3            # one token with a 2-digit number:  t + pad + dd
+        pb = L - 4            # ... ending in the illegal '#'
+        p2 = (L - 7) // 2 if (L - 7) % 2 == 0 else (L - 8) // 2      # two tokens (2+2 or 2+3 digits)
+        k2 = 12 if (L - 7) % 2 == 0 else 112
+        idq = (1, "I", None, "Q", None)
+        env = lambda pad: {"decls": [("u", 50), ("g", 60), ("p", 51)], "pad": pad}
+
+        def add(kind, pad, defs, doc):
+            cases.append((kind, env(pad), None, [(0, defs)], [(0, el) for el in doc]))
+        for ty in ("N", "NS"):
+            add("len-valid", p1, [(2, ty, None, "I", None)], [[(2, [n(11)])], [(2, [("m", 11)])]])
+            add("len-bad-last-char", pb, [(2, ty, None, "I", None)], [[(2, [("b", 11)])]])
+        add("len-valid", p2, [(2, "NS", None, "I", None)], [[(2, [n(11), ("m", k2)])]])
+        add("len-bad-last-char", p2, [(2, "NS", None, "I", None)], [[(2, [n(11), ("b", k2 // 10 if k2 > 99 else k2 // 10 + 10)])]])
+        add("len-valid", p1, [idq], [[(1, [n(11)])], [(1, [n(12)])]])                       # two IDs differing in the last char
+        add("len-id-reused", p1, [idq], [[(1, [n(11)])], [(1, [n(11)])]])
+        add("len-bad-last-char", pb, [idq], [[(1, [("b", 11)])]])
+        ir = [idq, (2, "R", None, "I", None)]
+        add("len-valid", p1, ir, [[(1, [n(11)]), (2, [n(11)])]])
+        add("len-idref-last-char", p1, ir, [[(1, [n(11)]), (2, [n(12)])]])
+        add("len-idref-prefix-is-id", L - 3, ir, [[(1, [n(1)]), (2, [n(12)])]])           # the ID is the IDREF minus its last char
+        add("len-idref-prefix-is-id", L - 2, ir, [[(1, [n(12)]), (2, [n(1)])]])           # ... and the other way round
+        irs = [idq, (2, "RS", None, "I", None)]
+        add("len-valid", p2, irs, [[(1, [n(11)])], [(1, [n(k2)]), (2, [n(11), n(k2)])]])
+        add("len-idref-last-char", p2, irs, [[(1, [n(11)])], [(1, [n(k2)]), (2, [n(11), n(k2 + 1)])]])
+        for ty in ("E", "ES"):
+            add("len-valid", p1, [(2, ty, None, "I", None)], [[(2, [n(50)])]])
+            add("len-entity-last-char", p1, [(2, ty, None, "I", None)], [[(2, [n(51)])]])      # only a PE of that name
+            add("len-entity-parsed", p1, [(2, ty, None, "I", None)], [[(2, [n(60)])]])
+        add("len-valid", p1, [(2, "O", [n(11), n(12)], "I", None)], [[(2, [n(12)])]])
+        add("len-enum-last-char", p1, [(2, "O", [n(11), n(12)], "I", None)], [[(2, [n(13)])]])
+        add("len-valid", p1, [(2, "M", [n(11), ("m", 12)], "I", None)], [[(2, [("m", 12)])], [(2, [n(11)])]])
+        add("len-enum-last-char", p1, [(2, "M", [n(11), ("m", 12)], "I", None)], [[(2, [n(12)])]])
+        # defaults / #FIXED values of that length
+        add("len-valid", p1, [(2, "N", None, "F", [n(11)])], [[], [(2, [n(11)])]])
+        add("len-fixed-last-char", p1, [(2, "N", None, "F", [n(11)])], [[(2, [n(12)])]])
+        add("len-default-ref", p1, [idq, (2, "R", None, "D", [n(12)])], [[(1, [n(11)])]])
     return cases
+
+
+def gen_namespace_cases(ctx):
+    """general vs parameter entities (both orders), notations and element types of the same names, re-declarations"""
+    n = lambda k: ("n", k)
+    orders = [[("p", 50), ("u", 50), ("g", 60)], [("u", 50), ("p", 50), ("g", 60), ("p", 60)],
+              [("p", 50), ("p", 60), ("g", 60), ("u", 50)], [("u", 50), ("g", 50), ("g", 60), ("u", 60)],
+              [("g", 50), ("u", 50), ("u", 60), ("g", 60)], [("n", 50), ("e", 50), ("u", 50), ("g", 60), ("n", 60), ("e", 60)],
+              [("p", 50), ("n", 50), ("u", 50), ("p", 50), ("e", 60), ("g", 60)], [("p", 70), ("u", 50), ("g", 60)],
+              [("u", 50), ("g", 60)]]
+    cases = []
+    for decls in orders:
+        for collide in (False, True):
+            env = {"decls": decls, "collide": collide, "crefs": True}
+            defs = [(1, "E", None, "I", None), (2, "ES", None, "I", None), (3, "C", None, "I", None)]
+            cases.append(("ns-entity", env, None, [(0, defs)], [(0, [(1, [n(50)])]), (0, [(2, [n(50), n(50)]), (3, [n(1)])])]))
+            cases.append(("ns-entity-other", env, None, [(0, defs)], [(0, [(1, [n(60)])])]))
+            cases.append(("ns-entity-pe-only", env, None, [(0, defs)], [(0, [(1, [n(70)])]), (0, [(2, [n(50), n(70)])])]))
+            cases.append(("ns-entity-default", env, None, [(0, [(1, "E", None, "D", [n(50)]), (3, "C", None, "I", None)])],
+                          [(0, []), (0, [(3, [n(2)])])]))
+    return cases
+
+
+# ---- the standalone declaration must survive the text declarations of external parsed entities -------------
+def standalone_cases(codes, xerrs):
+    """(name, document, {system id: text}, expected code list).  An external general entity declared in the INTERNAL
+    subset (so referencing it is legal in a standalone document) is referenced in content BEFORE the construct that
+    violates a standalone validity constraint; its file starts with a text declaration or not.  The expected codes
+    depend on the document's own standalone declaration and the construct only."""
+    dtd = ('<!ELEMENT r (t,e?)>\n<!ELEMENT t (#PCDATA|q)*>\n<!ELEMENT q EMPTY>\n<!ELEMENT e (f?)>\n<!ELEMENT f EMPTY>\n'
+           '<!ATTLIST e a CDATA "d" n NMTOKENS #IMPLIED>\n<!ENTITY xe "from-external-subset">\n')
+    tdecls = {"none": "", "full": '<?xml version="1.0" encoding="UTF-8"?>', "enc-only": '<?xml encoding="UTF-8"?>',
+              "us-ascii": "<?xml version='1.0' encoding='US-ASCII'?>"}
+    constructs = {          # name: (text after </t>, extra text inside <t>, code when standalone=yes)
+        "default": ("<e/>", "", "V%d" % codes["NoDefAttForStandalone"]),
+        "attnorm": ('<e a="v" n=" x  y "/>', "", "V%d" % codes["NoAttNormForStandalone"]),
+        "ws": ('<e a="v"> <f/></e>', "", "V%d" % codes["NoWSForStandalone"]),
+        "extref": ('<e a="v"/>', "&xe;", "XF%d" % xerrs["IllegalRefInStandalone"]),
+        "valid": ('<e a="v"><f/></e>', "", None),
+    }
+    out = []
+    for sa in ("yes", "no", None):
+        head = '<?xml version="1.0"%s?>\n' % (' standalone="%s"' % sa if sa else "")
+        for cname, (after, inside, code) in constructs.items():
+            exp = [code] if (sa == "yes" and code) else []
+            for prefix in ("none", "text", "ent", "ent-twice", "ent-nested", "ent-elem"):
+                for td in (tdecls if prefix.startswith("ent") else {"none": ""}):
+                    files = {"x.dtd": dtd}
+                    internal = '<!ENTITY ent SYSTEM "ent.xml">\n<!ENTITY ent2 SYSTEM "ent2.xml">\n'
+                    if prefix == "none":
+                        pre = ""
+                    elif prefix == "text":
+                        pre = "plain text"
+                    elif prefix == "ent":
+                        pre, files["ent.xml"] = "&ent;", tdecls[td] + "entity text"
+                    elif prefix == "ent-twice":
+                        pre, files["ent.xml"] = "a&ent;b&ent;c", tdecls[td] + "entity text"
+                    elif prefix == "ent-nested":
+                        pre = "&ent;"
+                        files["ent.xml"] = tdecls[td] + "outer &ent2; outer"
+                        files["ent2.xml"] = tdecls[td] + "inner"
+                    else:
+                        pre, files["ent.xml"] = "&ent;", tdecls[td] + "x<q/>y"
+                    doc = (head + '<!DOCTYPE r SYSTEM "x.dtd" [\n' + internal + "]>\n<r><t>" + pre + inside + "</t>" + after
+                           + "</r>\n")
+                    out.append(("standalone-%s-%s-%s-%s" % (sa, cname, prefix, td), doc, files, exp))
+    return out
 
 
 # ---- catalogue: one validity constraint broken at a time, checked directly on the implementation -----------------
@@ -1209,6 +1432,35 @@ def run(ctx):
                                         "than validity errors" % (name, exp or "no error"), "request": line, "document": d,
                                         "external_subset": e, "impl": o})
     kinds["catalogue"] = len(cat)
+    # ---- standalone declaration x text declarations of external parsed entities --------------------------------
+    sc = standalone_cases(codes, xerrs)
+    slines = ["docx v %s %s" % (hx(d), ",".join("%s=%s" % (k, hx(v) if v else "-") for k, v in sorted(f.items())))
+              for _, d, f, _ in sc]
+    if ctx.replay:
+        sc, slines = [], []
+        if replay_rec.get("tag") == "standalone":
+            sc = [(replay_rec["name"], replay_rec["document"], replay_rec["files"], replay_rec["expected"])]
+            slines = [replay_rec["request"]]
+    rcs, sout, serr = run_bin(xh, slines)
+    if rcs != 0 or len(sout) != len(slines):
+        ctx.violation("harness-crash", {"what": "harness crashed on the standalone / external entity cases",
+                                        "stderr": serr[-2000:]})
+        return
+    nsb = 0
+    for (name, d, f, exp), o, line in zip(sc, sout, slines):
+        ctx.count()
+        ctx.distinct(name)
+        got = o.split(" a=")[0][2:]
+        got = [] if got == "-" else got.split(",")
+        if got != exp:
+            nsb += 1
+            if nsb <= 3:
+                ctx.violation("standalone", {"what": "the validity (or WFC) errors of a document must be those of its own "
+                                             "standalone declaration and the violating construct; a reference to an external "
+                                             "parsed entity (with or without a text declaration) before the construct must not "
+                                             "change them", "name": name, "request": line, "document": d, "files": f,
+                                             "expected": exp, "impl": o})
+    kinds["standalone-entity"] = len(sc)
     # ---- attributes ------------------------------------------------------------------------------------------------
     if ctx.replay:
         acases, l1, l0 = [], [], []
@@ -1312,7 +1564,13 @@ def run(ctx):
                              "rows of the scanner's per-document counter pool, one rule broken at a row boundary; element types "
                              "occurring 300/1100 times; tags with ~100..130 attributes; defaults of reference types as the only "
                              "violation; all attribute documents under both scanners with namespaces off and on; a catalogue of "
-                             "%d documents breaking one constraint each" % len(cat))
+                             "%d documents breaking one constraint each; %d documents crossing {standalone yes/no/absent} x {default from the "
+                             "external subset, normalisation change, white space in element content, externally declared "
+                             "entity reference, valid} x {external parsed entity referenced before the construct: none / once / "
+                             "twice / nested / with markup} x {no / full / encoding-only / US-ASCII text declaration}; attribute "
+                             "values of length b-2..b+2, 2b (b = fixed buffers of the DTD validator) with the deciding "
+                             "character last; general entities declared among same-named parameter entities / notations / "
+                             "element types in both orders with re-declarations" % (len(cat), len(sc)))
     ctx.coverage["exhaustive"] = False
     ctx.note("correspondence: %d cases, %d divergences, %d spec contradictions, %.1fs" % (
         len(lines), len(divergences), len(spec_viol), time.time() - t0))
